@@ -1,7 +1,7 @@
 (* Engine/Run.v — top-level executable entry points used by the correspondence check
    (evaluated with vm_compute or after extraction).  No proofs. *)
 From Coq Require Import List NArith PArith Bool FMapPositive.
-From LogosV Require Import Engine.Model Engine.Cert Engine.Build.
+From LogosV Require Import Engine.Model Engine.Cert Engine.Build Engine.ExecOpt.
 Import ListNotations.
 Local Open Scope N_scope.
 
@@ -50,3 +50,21 @@ Definition run_next_ref (g : graph) (utf8 : bool) (codes : list N) (isprefix : b
   enc_outcome (snd (next_from (attempt_ref g) (act_of codes w) (fb_of utf8 w) w isprefix (S (length w)) start)).
 Definition run_next_spec (d : dfa) (R : rankmap) (utf8 : bool) (codes : list N) (w : list byte) (start : N) : list N :=
   enc_outcome (snd (next_from (attempt_spec d (lv_of R)) (act_of codes w) (fb_of utf8 w) w false (S (length w)) start)).
+
+(* the optimised executor with its read log: results as run_ref, then per attempt the reads *)
+Fixpoint enc_log (l : rlog) : list N := match l with [] => [] | (o, sz) :: r => o :: sz :: enc_log r end.
+Definition run_opt (U : nat) (g : graph) (utf8 : bool) (codes : list N) (isprefix : bool) (w : list byte) : list N :=
+  enc_result (lex_all (fun p s r => fst (attempt_opt U g p s r)) (act_of codes w) (fb_of utf8 w) w isprefix).
+(* read log of the single attempt starting at `start` *)
+Definition run_opt_trace (U : nat) (g : graph) (isprefix : bool) (w : list byte) (start : N) : list N :=
+  enc_log (snd (attempt_opt U g isprefix start (skipn (N.to_nat start) w))).
+
+(* start offsets of all attempts of a lexing run: one per region, plus the final attempt that
+   returned None *)
+Definition region_start (r : region) : N :=
+  match r with RItem (Item _ _ s _) => s | RSkip _ s _ => s end.
+Definition region_starts (g : graph) (utf8 : bool) (codes : list N) (isprefix : bool) (w : list byte) : list N :=
+  match lex_all (attempt_ref g) (act_of codes w) (fb_of utf8 w) w isprefix with
+  | (rs, Finished s _) => map region_start rs ++ [s]
+  | (rs, _) => map region_start rs
+  end.
